@@ -1686,6 +1686,10 @@ tunnel_dns(int tun_fd, int dns_fd, struct dnsfd *dns_fds, int bind_fd)
 	int read;
 	int domain_len;
 
+	/* The raw-mode handlers store q as the user's latest query; it must not
+	   carry stale stack contents (id, name) that later look like a held query */
+	memset(&q, 0, sizeof(q));
+
 	if ((read = read_dns(dns_fd, dns_fds, tun_fd, &q)) <= 0)
 		return 0;
 
